@@ -14,6 +14,8 @@ import vlib
 
 EPS = {"f": 2.0 ** -24, "fa": 2.0 ** -24, "d": 2.0 ** -53}
 C_TOL = 64.0
+GUARD_C = 64.0      # a branch guard g ? t is "marginal" when |g - t| <= GUARD_C * eps * max(1, sum |terms of g|)
+SLERP_THR = 0.9995  # the double literal in slerp()
 O2_FLOOR = 1e-7     # orthogonal() stops when |m_next - m|^2 < 1e-8: quadratic convergence leaves an error of order 1e-8
 SIGNSEG = {"rot": [(28, 32)], "qf": [(0, 4)]}
 
@@ -63,6 +65,12 @@ def f32(x):
     return struct.unpack("f", struct.pack("f", x))[0]
 
 
+def branch_marginal(M, eps):
+    xx, yy, zz = M[0][0], M[1][1], M[2][2]
+    mar = GUARD_C * eps * max(1.0, abs(xx) + abs(yy) + abs(zz))
+    return abs(xx + yy + zz) <= mar or abs(xx - max(yy, zz)) <= mar or abs(yy - zz) <= mar
+
+
 def branch_of(M):
     """which branch of QuaternionT(vx,vy,vz) the diagonal selects (the guards as written in Quaternion.h)"""
     xx, yy, zz = M[0][0], M[1][1], M[2][2]
@@ -73,9 +81,10 @@ def branch_of(M):
 
 
 # ------------------------------------------------------------------ the independent property oracle
-def oracle(kind, args, out):
+def oracle(kind, args, out, eps):
     """returns list of (identity, error, scale, kappa); textbook formulas evaluated in binary64 on the implementation's outputs"""
     R = []
+    oracle.marginal = False
     def chk(name, a, b, kappa=1.0):
         a, b = list(a), list(b)
         if any(x != x or abs(x) == float("inf") for x in a + b):
@@ -139,6 +148,8 @@ def oracle(kind, args, out):
         # det > 0: the rotation (M + cof M)/|.|; det < 0: mirror the first column, take the rotation, mirror it back
         M = cols(args[0:4], 2); Qm = cols(out[0:4], 2)
         dM = det(M); sg = -1.0 if dM < 0 else 1.0
+        if abs(dM) <= GUARD_C * eps * max(1.0, abs(M[0][0] * M[1][1]) + abs(M[0][1] * M[1][0])):
+            oracle.marginal = True; return R      # mirror test undecidable at this precision: either polar factor is acceptable
         a, c, b, d = sg * M[0][0], sg * M[0][1], M[1][0], M[1][1]
         h = math.hypot(a + d, c - b)
         R0 = [[(a + d) / h, (c - b) / h], [(b - c) / h, (a + d) / h]]          # columns
@@ -186,6 +197,12 @@ def oracle(kind, args, out):
         F2 = cols(out[9:18], 3)
         if abs(dot(up, N)) <= 0.98:
             chk("frame(N,up): dx || up x N", F2[0], unit(cross(up, N)))
+        # guards (the identities above hold on either side; a marginal case only exempts the model comparison, whose
+        # two sides may pick different but equally valid helper directions)
+        mar = GUARD_C * eps * 4.0
+        dx0, dx1 = cross([1, 0, 0], N), cross([0, 1, 0], N)
+        if abs(dot(dx0, dx0) - dot(dx1, dx1)) <= mar or abs(abs(dot(up, N)) - f32(0.99)) <= mar:
+            oracle.marginal = True
     elif kind == "look":
         eye, pt, up = args[0:3], args[3:6], args[6:9]
         L, p = cols(out[0:9], 3), out[9:12]
@@ -217,22 +234,37 @@ def oracle(kind, args, out):
         chk("Quaternion(yaw,pitch,roll) = rotY(yaw)*rotX(pitch)*rotZ(roll)", flat(qmat(out[0:4])), flat(mm(mm(Ry, Rx), Rz)))
         chk("ypr quaternion is unit", [dot(out, out)], [1.0])
     elif kind == "sl":
+        # slerp has two guards: the sign flip  d < 0  and the fallback  d > 0.9995  (d = dot(a,b) in the flavour's
+        # precision).  When d is within a rounding-aware margin of a threshold the implementation may legitimately land
+        # on either side: both references are computed and the better one is taken (case counted as guard-marginal).
         t, a, b = f32(args[0]), args[1:5], args[5:9]
-        d = dot(a, b)
-        a2 = [-x for x in a] if d < 0 else a
-        d = abs(d)
         res = out[0:4]
-        chk("slerp is unit", [dot(res, res)], [1.0])
-        if d < 0.999:
-            th = math.acos(min(1.0, d))
-            chk("slerp: angle to (sign-corrected) a = t*theta", [dot(res, a2)], [math.cos(t * th)])
-            chk("slerp: angle to b = (1-t)*theta", [dot(res, b)], [math.cos((1 - t) * th)])
-            k = 1.0 / math.sin(th)
-            exp = [math.sin((1 - t) * th) * k * x + math.sin(t * th) * k * y for x, y in zip(a2, b)]
-            chk("slerp = (sin((1-t)th) a + sin(t th) b)/sin th on the short way", res, exp, k)
-        else:
-            l = [(1 - t) * x + t * y for x, y in zip(a2, b)]
-            chk("slerp (nearly parallel) = normalised lerp", res, unit(l), 4.0)
+        d0 = dot(a, b)
+        mar = GUARD_C * eps * max(1.0, sum(abs(x * y) for x, y in zip(a, b)))
+        flips = [d0 < 0] if abs(d0) > mar else [False, True]
+        cands = []
+        for fl in flips:
+            a2 = [-x for x in a] if fl else a
+            d = -d0 if fl else d0
+            brs = [d > SLERP_THR] if abs(d - SLERP_THR) > mar else [False, True]
+            for lerp in brs:
+                Rsave = R; R = []
+                chk("slerp is unit", [dot(res, res)], [1.0])
+                if not lerp:
+                    dd = min(1.0, max(-1.0, d))
+                    th = math.acos(dd)
+                    k = 1.0 / max(math.sin(th), 1e-300)
+                    chk("slerp: angle to (sign-corrected) a = t*theta", [dot(res, a2)], [math.cos(t * th)], k)
+                    chk("slerp: angle to b = (1-t)*theta", [dot(res, b)], [math.cos((1 - t) * th)], k)
+                    exp = [math.sin((1 - t) * th) * k * x + math.sin(t * th) * k * y for x, y in zip(a2, b)]
+                    chk("slerp = (sin((1-t)th) a + sin(t th) b)/sin th on the short way", res, exp, k)
+                else:
+                    l = [(1 - t) * x + t * y for x, y in zip(a2, b)]
+                    chk("slerp (nearly parallel) = normalised lerp", res, unit(l), 4.0)
+                cands.append(R); R = Rsave
+        if len(cands) > 1: oracle.marginal = True
+        best = min(cands, key=lambda c: max(e / (max(1.0, k) * sc) for (_, e, sc, k) in c))
+        R.extend(best)
     return R
 
 
@@ -447,7 +479,7 @@ def run(ctx):
     mf["d"].update(runall(model, ["d", "d"], lambda c: c[0] == "o2")[1])
     mq["fa"], mf["fa"] = mq["f"], mf["f"]
 
-    stats = {"compared_outputs": 0, "bit_exact_vs_machine_reading": 0, "model_mismatch": 0, "oracle_checks": 0, "oracle_fail": 0}
+    stats = {"compared_outputs": 0, "bit_exact_vs_machine_reading": 0, "model_mismatch": 0, "oracle_checks": 0, "oracle_fail": 0, "guard_marginal_cases": 0, "model_mismatch_on_guard_marginal_case": 0}
     branch_cov = {fl: {1: 0, 2: 0, 3: 0, 4: 0} for fl in ("f", "fa", "d")}
     kinds_hist, worst_ratio = {}, {}
     viol_seen = set()
@@ -468,7 +500,12 @@ def run(ctx):
             if kind == "qf": branch_cov[fl][branch_of(cols(ain[0:9], 3))] += 1
             # 1. independent oracle on the implementation's own outputs
             bad = []
-            for (name, errv, scale, k2) in oracle(kind, ain, iv):
+            orc = oracle(kind, ain, iv, eps)
+            marginal = oracle.marginal
+            if kind == "rot" and branch_marginal(cols(iv[0:9], 3), eps): marginal = True
+            if kind == "qf" and branch_marginal(cols(ain[0:9], 3), eps): marginal = True
+            if marginal: stats["guard_marginal_cases"] += 1
+            for (name, errv, scale, k2) in orc:
                 stats["oracle_checks"] += 1
                 tol = C_TOL * max(1.0, k2) * eps * scale
                 if kind == "o2": tol = max(tol, O2_FLOOR * scale)
@@ -500,7 +537,11 @@ def run(ctx):
                 if kind == "o2": tol = max(tol, O2_FLOOR * scale)
                 if errv > tol:
                     stats["model_mismatch"] += 1
-                    if not bad:
+                    if marginal and not bad:
+                        # model and implementation may sit on different sides of a guard that is within rounding of its
+                        # threshold; the oracle accepted the implementation's side
+                        stats["model_mismatch_on_guard_marginal_case"] += 1
+                    elif not bad:
                         ctx.broken.append("correspondence: regenerated model (%s) and %s implementation differ on %s: output #%d differs by %.3g (tolerance %.3g) although every identity of the oracle holds"
                                           % (nm, fl, lines[i][:200], wi, errv, tol))
             if not bad and not isint and kind in ("rot", "qf", "sl", "l3", "a3", "o2"):
@@ -513,6 +554,7 @@ def run(ctx):
     ctx.cov["cases_by_flavour_and_kind"] = kinds_hist
     ctx.cov["comparison"] = stats
     ctx.cov["worst_error_over_tolerance_per_identity"] = {k: round(v, 4) for k, v in sorted(worst_ratio.items())}
+    ctx.cov["guard_margin"] = "a branch guard (slerp d<0, d>0.9995; quaternion-from-matrix trace>=0, vx.x>=max(vy.y,vz.z), vy.y>=vz.z; frame dx choice, |up.N|>0.99f; orthogonal det<0) is marginal when |g - t| <= 64*eps*max(1,sum|terms|): the oracle then accepts the reference of either side (best of both) and a model/implementation difference is not an alarm"
     ctx.cov["tolerance"] = "|observed - reference| <= 64 * kappa * eps * max(1,|reference|_inf); eps = 2^-24 (float) / 2^-53 (double); kappa = Frobenius condition number of the inverted matrix (inputs rejected above 64), 1/sin(theta) for slerp"
     ctx.rule = ("matrices with pairwise DISTINCT entries (small integers, and multiples of 1/64 in [-4,4]) of condition <= 64; unit and scaled axes x angles in "
                 "[-2pi,2pi] (half of them in the band 2pi/3..4pi/3 where the trace is negative) ; unit quaternion pairs (every fifth nearly (anti)parallel) x slerp factors; "
